@@ -3,9 +3,12 @@
 Two halves, each with the five stages of BUILDING.md:
   dispatch:  C04_DGen (TLC: hierarchies x handler subsets x foreign objects; transcription of
              Mapper.__call__ refines the meaning)  ->  drive_dispatch  ->  C04_DJudge
-  walk:      C04_WGen (TLC: trees x traversal configurations; stack acceptor == declarative
-             walk contract on the canonical walk and its mutations), C04_WalkModel (TLC: full
-             state graph of the acceptor on tiny trees + negative controls)
+  walk:      C04_WGen (TLC: trees x traversal configurations, user node classes x handler
+             subsets; stack acceptor == declarative walk contract on the canonical walk and its
+             mutations), C04_WalkModel (TLC: full state graph of the acceptor on tiny trees +
+             negative controls), C04_Hist (TLC, S-layer: histories of calls with varying extra
+             arguments on ONE memoising mapper, cache keyed by (expression, args, kwargs); four
+             negative controls with weaker keys)
              ->  drive_walk  ->  C04_WJudge (trace validation: one TLC step per recorded event)
 Python only moves data and groups failing verdicts into signatures."""
 from __future__ import annotations
@@ -114,9 +117,11 @@ def gen_walk(tier, seed, out):
     gen = kit.run_tlc("C04_WGen", f"C04_WGen_{tier}")
     kit.require_clean(gen, "C04 traversal generation / model check")
     out.add_tlc(gen)
-    trees = [p for p in gen.printed() if "tree" in p]
-    if not trees:
-        raise kit.MachineryError("C04_WGen printed no trees")
+    printed = gen.printed()
+    trees = [p for p in printed if "tree" in p]
+    ucls = [p["uclasses"] for p in printed if "uclasses" in p]
+    if not trees or len(ucls) != 1:
+        raise kit.MachineryError("C04_WGen printed no trees / no user class table")
     nrand = 0
     if tier == "thorough":
         # beyond the exhaustive bounds: random deeper trees, reproducible from the seed
@@ -135,15 +140,77 @@ def gen_walk(tier, seed, out):
     cases = []
     for t in trees:
         for c in t["cfgs"]:
-            cases.append({"id": len(cases), "tree": t["tree"], "cfg": c})
-    kit.log(f"C04: TLC generated {len(trees)} trees ({nrand} random) / {len(cases)} traversal runs "
-            f"({gen.distinct} states, {gen.wall:.1f}s)")
+            # one call on a fresh mapper, applied to the root
+            cases.append({"tree": t["tree"],
+                          "cfg": {"fam": c["fam"], "F": c["F"], "R": c["R"], "impl": c["impl"]},
+                          "calls": [{"n": 1, "a": c["a"], "k": c["k"]}]})
+    nuser = sum(1 for t in trees if '"UNode"' in json.dumps(t["tree"]))
+    kit.log(f"C04: TLC generated {len(trees)} trees ({nrand} random, {nuser} with user node classes) / "
+            f"{len(cases)} traversal runs ({gen.distinct} states, {gen.wall:.1f}s)")
     out.extra["walk_random_trees"] = nrand
-    return trees, cases
+    out.extra["walk_trees_with_user_node_classes"] = nuser
+    return trees, cases, ucls[0]
+
+
+HIST_NEG = ["kwnames", "nokw", "noargs", "posonly_count"]
+
+
+def gen_hist(tier, seed, out):
+    """C04_Hist: histories of calls on one memoising mapper (model-checked: no stale result in
+    any history when the cache is keyed by expression + args + kwargs; TLC must find the stale
+    result for every weaker key) -> the histories to replay on the real mappers."""
+    import concurrent.futures as cf
+    with cf.ThreadPoolExecutor(max_workers=5) as ex:
+        main = ex.submit(kit.run_tlc, "C04_Hist", f"C04_Hist_{tier}", workers=6)
+        negs = [ex.submit(kit.run_tlc, "C04_Hist", f"C04_Hist_neg_{n}", workers=1, heap="1g")
+                for n in HIST_NEG]
+        res = main.result()
+        nres = [f.result() for f in negs]
+    kit.require_clean(res, "C04_Hist (histories on one memoising mapper)")
+    out.add_tlc(res)
+    for n, r in zip(HIST_NEG, nres):
+        if "EveryCallIsTheMeaning" not in r.invariant_violated:
+            raise kit.MachineryError(f"C04_Hist negative control {n}: TLC did not find the stale result")
+    printed = res.printed()
+    nexh = sum(1 for p in printed if "calls" in p)
+    if tier == "thorough":
+        rnd = kit.run_tlc("C04_Hist", "C04_Hist_random", workers=4, simulate="num=1500", depth=8, seed=seed)
+        kit.require_clean(rnd, "C04_Hist random histories (-simulate)")
+        out.add_tlc(rnd)
+        printed += rnd.printed()
+    pools = [p for p in printed if "htrees" in p]
+    if not pools:
+        raise kit.MachineryError("C04_Hist printed no tree / argument pools")
+    seen, cases = set(), []
+    for h in printed:
+        if "calls" not in h:
+            continue
+        key = json.dumps(h, sort_keys=True)
+        if key in seen:
+            continue
+        seen.add(key)
+        # the random tier has the wider pools: take trees / argument tuples from the pools of
+        # the run that printed the history (the pools of a tier are prefixes of the next one)
+        pool = max(pools, key=lambda p: len(p["aps"]))
+        tree = pool["htrees"][h["ti"] - 1]
+        calls = [{"n": c["n"], "a": pool["aps"][c["p"] - 1]["a"], "k": pool["aps"][c["p"] - 1]["k"]}
+                 for c in h["calls"]]
+        for c in h["cfgs"]:
+            cases.append({"tree": tree, "cfg": c, "calls": calls})
+    kit.log(f"C04: history model {res.distinct} states, {len(HIST_NEG)} negative controls caught; "
+            f"{len(seen)} histories ({nexh} exhaustive) / {len(cases)} runs ({res.wall:.1f}s)")
+    out.extra["history_model_states"] = res.distinct
+    out.extra["history_negative_controls_caught"] = f"{len(HIST_NEG)}/{len(HIST_NEG)}"
+    out.extra["histories"] = len(seen)
+    out.extra["history_runs"] = len(cases)
+    return cases
 
 
 def walk_sig(v, rec):
     fam = rec["cfg"]["fam"]
+    if len(rec["calls"]) > 1:
+        return {"half": "hist", "fam": BASEFAM[fam], "cached": fam in CACHED, "clause": v["v"],
+                "ev": v.get("ev", ""), "who": v.get("who", ""), "rel": v.get("rel", "")}
     if (v["v"] == "error" and v["ev"] == "TypeError" and fam in CACHED
             and v["who"] in ("List", "Arr")):
         return {"half": "walk", "clause": "cached-unhashable", "who": v["who"]}
@@ -151,7 +218,7 @@ def walk_sig(v, rec):
             "who": v.get("who", ""), "pos": v.get("pos", 0)}
 
 
-def judge_walk(out, recs, wd):
+def judge_walk(out, recs, wd, ucls):
     shards = kit.write_shards(recs, wd / "trace", "c04w", min(8000, max(500, -(-len(recs) // 4))))
     verdicts, st, tr = kit.judge_shards("C04_WJudge", "C04_WJudge", shards)
     out.states += st
@@ -170,27 +237,43 @@ def judge_walk(out, recs, wd):
             out.skipped += 1
         else:
             rec = byid[v["id"]]
-            out.fail(walk_sig(v, rec), {"half": "walk", "case": {"id": rec["id"], "tree": rec["tree"],
-                                                                "cfg": rec["cfg"]},
-                                        "verdict": v, "recorded": {k: rec.get(k) for k in
-                                                                   ("evs", "out", "res", "eq", "built")}})
+            out.fail(walk_sig(v, rec), {"half": "walk", "uclasses": ucls,
+                                        "case": {"id": rec["id"], "tree": rec["tree"],
+                                                 "cfg": rec["cfg"],
+                                                 "calls": [{"n": c["n"], "a": c["a"], "k": c["k"]}
+                                                           for c in rec["calls"]]},
+                                        "verdict": v, "recorded": rec["calls"], "built": rec.get("built")})
     return how
 
 
 def run_walk(tier, seed, out, wd):
-    trees, cases = gen_walk(tier, seed, out)
-    recs = kit.drive(DRV, "drive_walk", cases, None, chunk=400)
-    out.evaluations += len(recs)
-    how = judge_walk(out, recs, wd)
+    import concurrent.futures as cf
+    with cf.ThreadPoolExecutor(max_workers=2) as ex:
+        fw = ex.submit(gen_walk, tier, seed, out)
+        fh = ex.submit(gen_hist, tier, seed, out)
+        trees, cases, ucls = fw.result()
+        hcases = fh.result()
+    cases = cases + hcases
+    for i, c in enumerate(cases):
+        c["id"] = i
+    recs = kit.drive(DRV, "drive_walk", cases, {"uclasses": ucls}, chunk=400)
+    out.evaluations += sum(len(r["calls"]) for r in recs)
+    how = judge_walk(out, recs, wd, ucls)
     for t in trees:
         out.note_case(t["tree"], nontrivial=json.dumps(t["tree"]).count('"id"') > 1)
+    for c in hcases:
+        out.note_case([c["tree"], c["calls"]], nontrivial=True)
     out.extra["walk_trees"] = len(trees)
-    out.extra["walk_runs"] = len(recs)
+    out.extra["walk_runs"] = len(recs) - len(hcases)
     out.extra["walk_outcomes"] = how
-    out.extra["walk_events_validated"] = sum(len(r["evs"]) for r in recs)
-    k = max(1, len(recs) // 2)
-    out.samples += [{"tree": r["tree"], "cfg": r["cfg"], "events": r["evs"][:6], "outcome": r["out"]}
-                    for r in recs[k:k + 1]]
+    out.extra["walk_events_validated"] = sum(len(c["evs"]) for r in recs for c in r["calls"])
+    k = max(1, (len(recs) - len(hcases)) // 2)
+    out.samples += [{"tree": r["tree"], "cfg": r["cfg"], "events": r["calls"][0]["evs"][:6],
+                     "outcome": r["calls"][0]["out"]} for r in recs[k:k + 1] if r["calls"]]
+    out.samples += [{"history_on_one_mapper": [{"n": c["n"], "a": c["a"], "k": c["k"],
+                                                "events": len(c["evs"]), "outcome": c["out"]}
+                                               for c in r["calls"]],
+                     "tree": r["tree"], "cfg": r["cfg"]} for r in recs[-1:] if len(r["calls"]) > 1]
 
 
 # ------------------------------------------------------------------ entry points
@@ -198,14 +281,17 @@ class _Part:
     """Evidence counters of one pipeline; merged into the Outcome by the main thread."""
 
     def __init__(self, out):
+        import threading
         self.known = out.known
+        self._lock = threading.Lock()
         self.states = self.transitions = self.traces = self.evaluations = 0
         self.skipped = self.drift = 0
         self.extra, self.samples, self.fails, self.cases = {}, [], [], []
 
     def add_tlc(self, res):
-        self.states += res.distinct
-        self.transitions += res.generated
+        with self._lock:
+            self.states += res.distinct
+            self.transitions += res.generated
 
     def fail(self, sig, detail):
         self.fails.append((sig, detail))
@@ -247,13 +333,22 @@ def run(tier, seed, out):
                 "__call__/rec_fallback x extra arguments x hook overridden).  walk: every node kind as root "
                 "(arities, omitted slice parts, kwargs) x one item (any inner kind or special leaf) in a "
                 "position, twin-subtree trees; x 9 instrumented stock traversals x extra-argument tuples x "
-                "visit-answer patterns x renamed leaves; non-trivial = tree with at least one child")
+                "visit-answer patterns x renamed leaves; user node classes rooted at Expression / "
+                "AlgebraicLeaf / Leaf (1-2 levels, with and without expression fields) as items and "
+                "roots x every traversal x subsets of the handlers a user may add; histories of 3 calls "
+                "(A B A) on ONE instance of every memoising traversal (and the plain ones at the root) "
+                "x call targets (root, inner nodes) x 7 argument tuples varying in positional values, "
+                "keyword values and keyword names; non-trivial = tree with at least one child")
     out.exhaustive = True
     out.assumptions += [
         "events are observed through harness-side subclasses that log and delegate to super()",
         "object identity of node occurrences: equal small constants are never generated twice in one tree",
         "a raise of UnsupportedExpressionError/NotImplementedError counts as 'reported' whatever the node "
-        "(which kinds each stock traversal handles is only tracked as drift)",
+        "(which stock kinds each stock traversal handles is only tracked as drift); for instances of "
+        "user node classes the dispatch rule decides: no handler on the resolution order among those "
+        "the user added => the traversal must raise (no stock traversal implements a handler for the "
+        "abstract bases AlgebraicLeaf / Leaf)",
+        "extra arguments are opaque objects that compare equal iff they carry the same number",
         "memoising variants may skip an occurrence that is Python-equal to a finished one",
         "same-object clause not judged for nodes containing a list / numpy array (mutable, always copied)"]
 
@@ -268,5 +363,12 @@ def replay(path, out):
         recs = kit.drive(DRV, "drive_dispatch", [det["case"]], {"runs": det["runs"]})
         judge_dispatch(out, recs, wd, det["runs"])
     else:
-        recs = kit.drive(DRV, "drive_walk", [det["case"]], {"names": True})
-        judge_walk(out, recs, wd)
+        case = det["case"]
+        if "calls" not in case:      # replay files written before histories existed
+            cfg = case["cfg"]
+            case = {"id": case["id"], "tree": case["tree"],
+                    "cfg": {"fam": cfg["fam"], "F": cfg["F"], "R": cfg["R"], "impl": cfg.get("impl", [])},
+                    "calls": [{"n": 1, "a": cfg["a"], "k": cfg["k"]}]}
+        ucls = det.get("uclasses", [])
+        recs = kit.drive(DRV, "drive_walk", [case], {"names": True, "uclasses": ucls})
+        judge_walk(out, recs, wd, ucls)
